@@ -39,3 +39,40 @@ func Sequences[T any](alphabet []T, depth, shard, nshards int, f func(seq []T) b
 	}
 	return true
 }
+
+// DFS enumerates sequences over alphabet in depth-first order up to depth.
+// visit is called for every sequence; it returns whether the sequence may be
+// extended (false prunes the subtree) and whether to continue at all.
+// Sharding is by the index of the first two symbols.
+func DFS[T any](alphabet []T, depth, shard, nshards int, visit func(seq []T) (extend bool, cont bool)) bool {
+	seq := make([]T, 0, depth)
+	var rec func(level int, prefixIdx int) bool
+	rec = func(level int, prefixIdx int) bool {
+		for i, a := range alphabet {
+			idx := prefixIdx
+			if level < 2 {
+				idx = prefixIdx*len(alphabet) + i
+			}
+			if level == 1 && idx%nshards != shard {
+				continue
+			}
+			seq = append(seq, a)
+			extend, cont := true, true
+			// depth-1 sequences are visited by shard 0 only; deeper ones by the shard of their 2-prefix
+			if level >= 1 || shard == 0 {
+				extend, cont = visit(seq)
+			}
+			if !cont {
+				return false
+			}
+			if extend && level+1 < depth {
+				if !rec(level+1, idx) {
+					return false
+				}
+			}
+			seq = seq[:len(seq)-1]
+		}
+		return true
+	}
+	return rec(0, 0)
+}
